@@ -267,17 +267,23 @@ def tlaps(proof_module, workdir, spec_dir=SPEC_DIR, timeout=900):
     to the module).  Returns the number of obligations proved; raises MachineryError unless all are."""
     src = os.path.join(spec_dir, 'proofs', proof_module + '.tla')
     wd = os.path.join(workdir, 'tlaps_' + proof_module)
+    out = ''
+    # the back-end provers run under their own (wall-clock) time limits: on a loaded machine an obligation can time
+    # out that is proved in a second otherwise, so a failed attempt is repeated with the limits stretched
+    for stretch in (1, 4, 12):
+        shutil.rmtree(wd, ignore_errors=True)
+        os.makedirs(wd)
+        shutil.copy(src, wd)
+        cmd = ['tlapm', '--cleanfp', '--stretch', str(stretch), '-I', spec_dir, proof_module + '.tla']
+        try:
+            p = subprocess.run(cmd, cwd=wd, timeout=min(timeout * stretch, 2700), stdout=subprocess.PIPE, stderr=subprocess.STDOUT)
+        except subprocess.TimeoutExpired:
+            out = 'tlapm timed out (stretch %d)' % stretch
+            continue
+        out = p.stdout.decode('utf-8', 'replace')
+        shutil.rmtree(wd, ignore_errors=True)
+        m = re.search(r'All (\d+) obligations? proved', out)
+        if p.returncode == 0 and m:
+            return int(m.group(1))
     shutil.rmtree(wd, ignore_errors=True)
-    os.makedirs(wd)
-    shutil.copy(src, wd)
-    cmd = ['tlapm', '--cleanfp', '-I', spec_dir, proof_module + '.tla']
-    try:
-        p = subprocess.run(cmd, cwd=wd, timeout=timeout, stdout=subprocess.PIPE, stderr=subprocess.STDOUT)
-    except subprocess.TimeoutExpired:
-        raise MachineryError('tlapm timed out on %s' % proof_module)
-    out = p.stdout.decode('utf-8', 'replace')
-    shutil.rmtree(wd, ignore_errors=True)
-    m = re.search(r'All (\d+) obligations? proved', out)
-    if p.returncode == 0 and m:
-        return int(m.group(1))
     raise MachineryError('tlapm did not prove %s: %s' % (proof_module, out[-1200:]))
